@@ -699,3 +699,66 @@ Definition budget1 (n : nat) (g : gcfg) (e : ev) : nat :=
   end.
 Fixpoint budget (n : nat) (g : gcfg) (es : list ev) : nat :=
   match es with [] => 0%nat | e :: t => (budget1 n g e + budget n g t)%nat end.
+
+(* ---- the bounded event channel: `event_tx.send(..).await` inside the handlers ---- *)
+(* The handlers of the loop are sequential code with await points at every `event_tx.send`.  When the
+   channel to the KademliaHandle is full the loop parks there: no further event of `select!` is
+   taken and the drain loop does not continue until the user receives.  Seen from outside this is
+   the atomic handler of `step` followed by a delayed, in-order delivery of its events. *)
+Record bst := mkB {
+  b_st : st;
+  b_chan : list out;        (* in the channel, oldest first *)
+  b_back : list out         (* produced by the handler that is parked, not yet sent *)
+}.
+
+Inductive bev :=
+| BEv (e : ev)              (* the loop takes an event (possible only when it is not parked) *)
+| BRecv.                    (* the user receives one event *)
+
+Definition is_event (o : out) : bool := match o with OTrack _ _ => false | _ => true end.
+
+Fixpoint refill (room : nat) (chan back : list out) : list out * list out :=
+  match room, back with
+  | S r, o :: t => refill r (chan ++ [o]) t
+  | _, _ => (chan, back)
+  end.
+Definition push (cap : nat) (chan back : list out) : list out * list out :=
+  refill (cap - length chan) chan back.
+
+(* result: new state, what the user received, "the event was taken / consistent" *)
+Definition bstep (g : gcfg) (cap : nat) (b : bst) (e : bev) : bst * list out * bool :=
+  match e with
+  | BRecv =>
+      match b_chan b with
+      | [] => (b, [], true)
+      | o :: t => let '(c', k') := push cap t (b_back b) in (mkB (b_st b) c' k', [o], true)
+      end
+  | BEv e =>
+      match b_back b with
+      | [] => let '(s', o, ok) := step g (b_st b) e in
+              let '(c', k') := push cap (b_chan b) (filter is_event o) in
+              (mkB s' c' k', [], ok)
+      | _ :: _ => (b, [], false)
+      end
+  end.
+
+Fixpoint brun (g : gcfg) (cap : nat) (b : bst) (es : list bev) : bst * list out :=
+  match es with
+  | [] => (b, [])
+  | e :: t => let '(b1, r, _) := bstep g cap b e in
+              let '(b2, r2) := brun g cap b1 t in (b2, r ++ r2)
+  end.
+
+(* the events the loop really took *)
+Fixpoint taken (g : gcfg) (cap : nat) (b : bst) (es : list bev) : list ev :=
+  match es with
+  | [] => []
+  | e :: t =>
+      let b1 := fst (fst (bstep g cap b e)) in
+      match e, b_back b with
+      | BEv e', [] => e' :: taken g cap b1 t
+      | _, _ => taken g cap b1 t
+      end
+  end.
+
+Definition b0 (m : list (N * N)) : bst := mkB (st0 m) [] [].
